@@ -8,7 +8,7 @@
  *   E2     : mc_bfs() - level synchronous explicit state search; a state is
  *            the operation history that reaches it, replayed on a fresh real
  *            object; canonical 128 bit hashes de-duplicate.
- * (E3, the thread scheduler, lives in sched.h.)
+ * (E3, the thread scheduler, lives in mc_sched.h.)
  *
  * A harness is a normal program:
  *     int main(int argc, char **argv) {
@@ -53,6 +53,9 @@ void   mc_set_budget(double quick_s, double thorough_s); /* before first phase *
  * matched against, so make it stable and specific.  `fmt...' is free detail. */
 void mc_violation(const char *key, const char *fmt, ...)
         __attribute__((format(printf, 2, 3)));
+
+/* Number of distinct violation keys recorded so far (parent only; between phases). */
+int mc_violations_so_far(void);
 
 /* Named counters, summed over workers. */
 void mc_count(const char *name, uint64_t n);
@@ -107,6 +110,11 @@ typedef void (*mc_body_fn)(void *arg);
  * Returns the number of executions.  A replayed prefix that sees a different
  * arity than recorded aborts the run as a harness error (exit 2). */
 uint64_t mc_explore(mc_body_fn body, void *arg, int bound);
+
+/* Same, but only the part of the tree whose FIRST deviating choice point has
+ * index = part (mod nparts); the all-default execution is run by every part.
+ * Lets several pool cases share one exploration. */
+uint64_t mc_explore_shard(mc_body_fn body, void *arg, int bound, int part, int nparts);
 
 /* ---- E2: explicit state search over histories -------------------------- */
 
